@@ -19,17 +19,17 @@ MANIFEST = {
              'conditions all apply; speed_set_applies is the conjunction of its parameter comparisons with the arm tables '
              'matching the variant names; and at every statement of insert_speed that changes the profile vector the value left in '
              'force on the affected interval is not above min(previous value, new restriction) inside the restriction and not '
-             'above the previous value after its end. The index searches and sortedness — hence the pointwise bound for arbitrary '
-             'restriction sets — are not decided.'),
+             'above the previous value after its end. The two index searches are decided as far as their exit test, start and unit step go; sortedness of the stored profile across calls — hence the pointwise bound for arbitrary restriction sets as a whole — is not decided.'),
     'note': 'Speeds taken non-negative for the order proofs; extension link by link is C06-7 (speed points are among pass 1\'s vectors).',
 }
 EXPLANATION = 'min_speed spec, seed, add_speeds aggregate, speed_set_applies arm tables, per-site upper-bound obligations on insert_speed.'
-RULES = ['C02-1.min_speed', 'C02-2.seed', 'C02-3.add_speeds', 'C02-4.applies', 'C02-5.sites']
+RULES = ['C02-1.min_speed', 'C02-2.seed', 'C02-3.add_speeds', 'C02-4.applies', 'C02-5.sites', 'C02-6.search']
 ASSUMPTIONS = ['speeds are non-negative in the order proofs', 'idx_start / idx_end are the positions their search loops are meant to find (not decided)']
 
 
 def run(ctx):
     SP.site_rules(ctx, 'C02', 'le')
+    SP.searches(ctx, 'C02')
     SP.min_speed_spec(ctx)
     SP.seed(ctx)
     SP.add_speeds(ctx)
